@@ -262,3 +262,21 @@ func specMarkedAbandoned(p *chunkPayloadData) bool {
 
 //@ func Association.onRackTimeoutLocked
 //@   at store chunkPayloadData.retransmit assert#only-live-chunks-are-marked{C06} !chunk.acked && !chunk.abandoned()
+
+// ---- C10: bundling charges every chunk its on-wire size, so a packet over the MTU holds a single chunk ----
+
+// specChunkWireSize(c): bytes a DATA (16-byte header) or I-DATA (20-byte header) chunk occupies in a packet, padded to 4.
+func specChunkWireSize(c *chunkPayloadData) int {
+	n := 16 + len(c.userData)
+	if c.iData || c.typ == ctIData {
+		n = 20 + len(c.userData)
+	}
+
+	return (n + 3) &^ 3
+}
+
+//@ func Association.bundleDataChunksIntoPackets
+//@   assume#no-nil-chunks forall i int :: 0 <= i && i < len(chunks) ==> chunks[i] != nil && len(chunks[i].userData) <= 65535
+//@   loop 1 invariant#a-packet-over-the-mtu-holds-one-chunk{C10} bytesInPacket >= 12 && (bytesInPacket <= int(a.MTU()) || (len(chunksToSend) <= 1 && bytesInPacket <= 65600))
+//@   loop 1 atend assert#each-chunk-is-charged-its-wire-size{C10} chunkSizeInPacket == specChunkWireSize(chunkPayload)
+//@   tags C10
